@@ -50,6 +50,27 @@ def _consts(prog: Program) -> Dict[str, float]:
 
 def run(prog: Program, rep, thorough: bool) -> None:
     A.reset()
+
+    # memoised methods of Atmo must not read a field that can change after construction (the humidity setter rewrites
+    # the density ratio): the cache would keep serving the old atmosphere
+    atmo_ci = prog.cls(C.M_COND, 'Atmo')
+    later = C.fields_written_after_init(prog, atmo_ci)
+    rep.rule('C08.R5', 'no memoised Atmo method reads state that changes after construction', 1)
+    memo_bad = False
+    for cm in [atmo_ci] + prog.subclasses(atmo_ci):
+        for nm, m in cm.methods.items():
+            d = C.memo_decorator(m)
+            if d is None:
+                continue
+            stale = sorted(C.self_field_reads(prog, cm, m) & set(later))
+            if stale:
+                memo_bad = True
+                rep.fail('C08.R5', m.module.path, m.node.lineno, m.qualname, f'memo:{nm}',
+                         f'{m.qualname} is memoised with @{d} and reads {stale[:4]}, which {later[stale[0]]} rewrites after '
+                         f'construction: the same object keeps answering with the atmosphere it had at the first query '
+                         f'(density no longer falls with humidity; a station set back to standard disagrees with icao)')
+    if not memo_bad:
+        rep.ok('C08.R5', f'{prog.module(C.M_COND).path}:{atmo_ci.node.lineno}', 'no memoised Atmo method reads a field that is written after construction')
     rep.rule('C08.R1', 'constants vs ISA and vs their twins', 16 + 7 + 1)
     rep.rule('C08.R2', 'formula conformance and composition', 8)
     rep.rule('C08.R3', 'humidity contract', 3)
@@ -394,6 +415,7 @@ def run(prog: Program, rep, thorough: bool) -> None:
 CON = 'py_ballisticcalc/conditions.py'
 CST = 'py_ballisticcalc/constants.py'
 VARIANTS = [
+    Variant('altitude-query-memoised', 'break', [('py_ballisticcalc/conditions.py', '    def get_density_factor_and_mach_for_altitude(self, altitude: float) -> Tuple[float, float]:', '    @lru_cache(maxsize=512)\n    def get_density_factor_and_mach_for_altitude(self, altitude: float) -> Tuple[float, float]:'), ('py_ballisticcalc/conditions.py', 'import math\nimport warnings\n', 'import math\nimport warnings\nfrom functools import lru_cache\n')], 'C08.R5', 'seeded change C08/5 in spirit: not invalidated by the humidity setter'),
     Variant('vacuum-override-removed', 'break', [(CON, '    def update_density_ratio(self):\n        pass\n', '')], 'C08.R4', 'setting humidity on a Vacuum brings the air back', 'pass'),
     Variant('humidity-range-check-dropped', 'break', [(CON, '        if value < 0 or value > 100:\n            raise ValueError("Humidity must be between 0% and 100%.")\n', '')], 'C08.R3', '', 'pass'),
     Variant('percent-normalisation-dropped', 'break', [(CON, '        if value > 1:\n            value = value / 100.0  # Convert to percentage terms\n', '')], 'C08.R3', '', 'pass'),
